@@ -34,6 +34,9 @@ Definition dec (c : cfg) (s : sym) := (wild_exported c s, wild_imported c s).
 def gen_program(rng):
     nsym = rng.randrange(6, 16)
     syms = []
+    # in some programs the shared library also refers to symbols that the link demotes (version-script local:, an
+    # --exclude-libs archive): a reference from a library must not bring a demoted symbol back into .dynsym
+    demoted_refs = rng.random() < 0.5
     for i in range(nsym):
         where = rng.choice(["obj", "obj", "arch", "exarch"])
         bind = rng.choice(["global", "global", "weak", "local"])
@@ -42,7 +45,7 @@ def gen_program(rng):
              "vs_local": rng.random() < 0.2, "export_list": rng.random() < 0.2, "dso_ref": False, "referenced": rng.random() < 0.8}
         if s["kind"] == "abs":
             s["where"] = "obj"
-        if bind != "local" and vis in ("default", "protected") and s["where"] != "exarch" and not s["vs_local"] and rng.random() < 0.3:
+        if bind != "local" and vis in ("default", "protected") and (demoted_refs or (s["where"] != "exarch" and not s["vs_local"])) and rng.random() < 0.3:
             s["dso_ref"] = True
         if s["where"] != "obj":
             s["referenced"] = True          # archive members are pulled in by a reference
